@@ -7,7 +7,7 @@
   * `herm`, `applyUnitary`, `applyChannel`, `measureH` : `hermitianize`, `DensityMatrix.apply_unitary`,
     `apply_channel`, `apply_measurement` (probabilities clipped at 0, the outcome rule of the three settings with the
     `np.isclose(·, 0)` threshold, division by the conditional probability of the outcome);
-  * `projZ`, `resetKraus`, `ctrlG` : `projectors_zbasis`, `get_reset_qubit_kraus`, `get_two_qubit_controlled_gate`;
+  * `projZ`, `resetKraus`, `twoQ`/`ctrlG` : `projectors_zbasis`, `get_reset_qubit_kraus`, `get_two_qubit_controlled_gate`;
   * `applyUnitary_gate` : `U_g ρ(t) U_g†` (hermitianized) `= ρ(t.map g.act)`;
   * `prob_random`, `prob_det` : the probabilities the density-matrix backend computes are exactly ½, ½ when a stabilizer
     has an X on the qubit and exactly 1, 0 otherwise — so its outcome rule takes the same branch as the tableau's;
@@ -102,10 +102,54 @@ noncomputable def projZ (n q : Nat) (s : Bool) : DMat n := oneQ n q (ketbra s s)
 /-- `get_reset_qubit_kraus(n, q)` -/
 noncomputable def resetKraus (n q : Nat) : List (DMat n) := [oneQ n q (ketbra false false), oneQ n q (ketbra false true)]
 
-/-- `get_two_qubit_controlled_gate(n, c, t, u)` : `1 + ½ (1 − Z)_c (u − 1)_t` (the Kronecker chain with the two
-    non-identity factors `1 − Z` at `c` and `u − 1` at `t`, written as the product of the two one-factor chains) -/
+/-- the Kronecker chain with the 2×2 blocks `u` at position `c` and `v` at position `t`, identities elsewhere
+    (entrywise: all other bits agree, then the product of the two block entries) -/
+noncomputable def twoQ (n c t : Nat) (u v : Matrix Bool Bool ℂ) : DMat n :=
+  Matrix.of fun a b => if (∀ j : Fin n, j.val ≠ c → j.val ≠ t → a j = b j) then u (bx a c) (bx b c) * v (bx a t) (bx b t) else 0
+
+/-- `get_two_qubit_controlled_gate(n, c, t, u)` : `1 + ½ · (chain with 1 − Z at c and u − 1 at t)` -/
 noncomputable def ctrlG (n c t : Nat) (u : Matrix Bool Bool ℂ) : DMat n :=
-  1 + (1 / 2 : ℂ) • (oneQ n c (1 - sigmaZ) * oneQ n t (u - 1))
+  1 + (1 / 2 : ℂ) • twoQ n c t (1 - sigmaZ) (u - 1)
+
+/-- the two-factor chain is the product of the two one-factor chains (mixed-product property of `np.kron`) -/
+theorem twoQ_eq_mul (n c t : Nat) (hc : c < n) (ht : t < n) (hct : c ≠ t) (u v : Matrix Bool Bool ℂ) :
+    twoQ n c t u v = oneQ n c u * oneQ n t v := by
+  ext a b
+  rw [Matrix.mul_apply, sum_two_site c hc a]
+  · simp only [oneQ_apply, bx_update_self]
+    have h0 : ∀ s, (∀ j : Fin n, j.val ≠ c → a j = Function.update a ⟨c, hc⟩ s j) :=
+      fun s j hj => (update_off c hc a s j hj).symm
+    have hbt : ∀ s, bx (Function.update a ⟨c, hc⟩ s) t = bx a t := by
+      intro s
+      rw [bx_lt _ _ ht, bx_lt _ _ ht]
+      exact update_off c hc a s ⟨t, ht⟩ (Ne.symm hct)
+    have h1 : ∀ s, (∀ j : Fin n, j.val ≠ t → Function.update a ⟨c, hc⟩ s j = b j) ↔
+        ((∀ j : Fin n, j.val ≠ c → j.val ≠ t → a j = b j) ∧ s = bx b c) := by
+      intro s
+      constructor
+      · intro h
+        refine ⟨fun j hj1 hj2 => ?_, ?_⟩
+        · rw [← h j hj2, update_off c hc a s j hj1]
+        · have := h ⟨c, hc⟩ hct
+          rw [bx_lt _ _ hc, ← this]; simp
+      · intro ⟨h, hs⟩ j hj
+        by_cases hjc : j.val = c
+        · have : j = ⟨c, hc⟩ := Fin.ext hjc
+          rw [this, hs, bx_lt _ _ hc]; simp
+        · rw [update_off c hc a s j hjc]; exact h j hjc hj
+    rw [if_pos (h0 false), if_pos (h0 true), hbt, hbt]
+    show (if _ then _ else _) = _
+    by_cases hoff : ∀ j : Fin n, j.val ≠ c → j.val ≠ t → a j = b j
+    · rw [if_pos hoff]
+      cases hb : bx b c
+      · rw [if_pos ((h1 false).mpr ⟨hoff, hb.symm⟩), if_neg (fun h => by have := ((h1 true).mp h).2; rw [hb] at this; cases this)]
+        ring
+      · rw [if_neg (fun h => by have := ((h1 false).mp h).2; rw [hb] at this; cases this), if_pos ((h1 true).mpr ⟨hoff, hb.symm⟩)]
+        ring
+    · rw [if_neg hoff, if_neg (fun h => hoff ((h1 false).mp h).1), if_neg (fun h => hoff ((h1 true).mp h).1)]
+      ring
+  · intro m hm
+    rw [oneQ_apply, if_neg hm, zero_mul]
 
 theorem oneQ_sub (n q : Nat) (u v : Matrix Bool Bool ℂ) : oneQ n q (u - v) = oneQ n q u - oneQ n q v := by
   ext a b
@@ -147,8 +191,9 @@ theorem resetKraus1_eq (n q : Nat) (hq : q < n) :
   rw [ketbra_ft, ← oneQ_mul n q hq, ← projZ_eq n q hq, oneQ_sigmaX n q hq]
   rfl
 
-theorem ctrlG_eq (n c t : Nat) (hc : c < n) (hct : c ≠ t) (u : Matrix Bool Bool ℂ) : ctrlG n c t u = ctrlQ n c t u := by
-  rw [ctrlQ_eq_graphiq n c t hc hct, ctrlG, oneQ_sub, oneQ_one, oneQ_sigmaZ n c hc]
+theorem ctrlG_eq (n c t : Nat) (hc : c < n) (ht : t < n) (hct : c ≠ t) (u : Matrix Bool Bool ℂ) :
+    ctrlG n c t u = ctrlQ n c t u := by
+  rw [ctrlQ_eq_graphiq n c t hc hct, ctrlG, twoQ_eq_mul n c t hc ht hct, oneQ_sub, oneQ_one, oneQ_sigmaZ n c hc]
 
 theorem hadamard_gate (n q : Nat) : oneQ n q hadamardM = gateMat n (Gate.H q) := by
   rw [hadamardM, oneQ_smul]; rfl
